@@ -13,8 +13,76 @@ F1 = Fr(1)
 F2 = Fr(2)
 
 
+class SqrtFr(object):
+    """c * sqrt(r) with rational c >= 0, r >= 0: the automatic threshold
+    (root mean square of rational ISI lengths) and its quarter.  Ordering
+    against rationals is decided exactly through squares; arithmetic that
+    leaves the rationals falls back to float (values are compared with a
+    tolerance anyway, decisions are not)."""
+    __slots__ = ("r", "c")
+
+    def __init__(self, r, c=1):
+        self.r = Fr(r)
+        self.c = Fr(c)
+
+    def _sq(self):
+        return self.c * self.c * self.r
+
+    def __float__(self):
+        return float(self.c) * math.sqrt(self.r)
+
+    def _cmp(self, o):
+        if isinstance(o, SqrtFr):
+            a, b = self._sq(), o._sq()
+        else:
+            o = Fr(o)
+            if o < 0:
+                return 1
+            a, b = self._sq(), o * o
+        return (a > b) - (a < b)
+
+    def __lt__(self, o):
+        return self._cmp(o) < 0
+
+    def __le__(self, o):
+        return self._cmp(o) <= 0
+
+    def __gt__(self, o):
+        return self._cmp(o) > 0
+
+    def __ge__(self, o):
+        return self._cmp(o) >= 0
+
+    def __eq__(self, o):
+        return self._cmp(o) == 0
+
+    def __ne__(self, o):
+        return self._cmp(o) != 0
+
+    def __hash__(self):
+        return hash((self.r, self.c))
+
+    def __truediv__(self, k):
+        if isinstance(k, (int, Fr)):
+            return SqrtFr(self.r, self.c / k)
+        return float(self) / float(k)
+
+    def __rtruediv__(self, k):
+        return float(k) / float(self)
+
+    def __mul__(self, k):
+        if isinstance(k, (int, Fr)):
+            return SqrtFr(self.r, self.c * k)
+        return float(self) * float(k)
+
+    __rmul__ = __mul__
+
+    def __repr__(self):
+        return "SqrtFr(%s)=%r" % (self._sq(), float(self))
+
+
 def fr(x):
-    return x if isinstance(x, Fr) else Fr(x)
+    return x if isinstance(x, (Fr, SqrtFr)) else Fr(x)
 
 
 def frl(xs):
@@ -58,7 +126,8 @@ def isi_profile(a, b, T0, T1, mrts=F0):
         mid = (x[k] + x[k + 1]) / 2
         v1 = isi_len(a, mid, T0, T1)
         v2 = isi_len(b, mid, T0, T1)
-        y.append(abs(v1 - v2) / max(v1, v2, mrts))
+        d = max(v1, v2, mrts)
+        y.append(abs(v1 - v2) / d if not isinstance(d, SqrtFr) else float(abs(v1 - v2)) / float(d))
     return x, y
 
 
@@ -108,6 +177,11 @@ def spike_value(a, b, T0, T1, t, side, mrts=F0, ri=False):
     x2, S2 = _spike_part(eb, ea, t, T0, T1, side)
     m = (x1 + x2) / 2
     lim = max(m, mrts)
+    if isinstance(lim, SqrtFr):
+        lim = float(lim)
+        if ri:
+            return float(S1 + S2) / (2 * lim)
+        return float(S1 * x2 + S2 * x1) / (2 * float(m) * lim)
     if ri:
         return (S1 + S2) / (2 * lim)
     return (S1 * x2 + S2 * x1) / (2 * m * lim)
@@ -254,6 +328,10 @@ def default_thresh_sq(trains, T0, T1):
 
 def default_thresh(trains, T0, T1):
     return math.sqrt(default_thresh_sq(trains, T0, T1))
+
+
+def default_thresh_exact(trains, T0, T1):
+    return SqrtFr(default_thresh_sq(trains, T0, T1))
 
 
 # ---------------------------------------------------------------------------
